@@ -180,6 +180,16 @@ def run(ctx):
     for i in bad[:5]:
         ctx.violation({"kind": "model-vs-implementation", "case": vc.strip(rows[i]),
                        "explain": "String()/Parse()/WriteGraph/ReadIntoGraph of the Go code and the Gallina model (evaluated in Coq) disagree"})
+    # the Gallina RFC3339Nano codec (TimeCodec.v, laws proved) against Go's Time.Format / time.Parse
+    trows = vc.hrows(["-mode", "time", "-seed", seed, "-n", "1500" if thorough else "40"])
+    tuse, tbad = vc.time_eval(ctx, "cases_time", trows)
+    for r in tbad[:3]:
+        ctx.violation({"kind": "time-codec-vs-go", "case": r,
+                       "explain": "fmt_rfc3339nano / parse_rfc3339nano (TimeCodec.v, evaluated in Coq) and Go's Time.Format / time.Parse(RFC3339Nano) disagree"})
+    ctx.cov["time_codec_vs_go"] = {"format_cases": sum(1 for r in tuse if r["kind"] == "tfmt"),
+                                   "parse_cases": sum(1 for r in tuse if r["kind"] == "tparse"),
+                                   "parse_accepted": sum(1 for r in tuse if r["kind"] == "tparse" and r["res"] is not None),
+                                   "mismatches": len(tbad)}
     lawcnt, lawfails = vc.check_laws(rows)
     for f in lawfails[:3]:
         ctx.violation({"kind": "oracle-law-fails", "explain": "a law of the Go library assumed by the C05 theorems (oracle_laws) does not hold on this sample",
